@@ -25,6 +25,7 @@ func rulesC09(c *Ctx, r *Report) {
 	rulesLocalClamp(c, r)
 	rulesTraceFollowsFill(c, r) // the traceback moves as the fill read, and Local's start offsets are those of its first cell: the steps returned have the score returned
 	rulesFillAllCells(c, r)     // every cell of the table is computed: no early stop of the fill on a "good enough" score
+	rulesStepsAsTraced(c, r)    // the steps and score returned are the traceback's own, unchanged
 	rulesTraceStart(c, r)       // Local's walk starts at a best cell of the whole table (the optimum is the maximum over all cells)
 	rulesStepsReversed(c, r)    // the steps come out in order and their buffer holds the longest path (no panic on long alignments)
 	rulesPureAlign(c, r)        // the score lookups read the matrix as it is now: no state kept between calls, no writes
@@ -54,6 +55,28 @@ func rulesC09(c *Ctx, r *Report) {
 		r.analysed(t.where)
 		r.check(t.nAssign == 1 && strings.Contains(t.where, "init"), "T0", where, "single-assignment", pos,
 			"assigned exactly once, in "+t.where+", from a literal", fmt.Sprintf("assigned %d times (last in %s): the literal is not the only source of the table", t.nAssign, t.where))
+		// … and nothing edits the table after the literal, not even its own initialiser: the entries checked below
+		// are the entries the table has
+		{
+			var initList []*ssa.Function
+			for f := range inits {
+				initList = append(initList, f)
+			}
+			ws, _, unk := c.globalWrites(g, initList)
+			var edits []string
+			for _, w := range ws {
+				if w.kind != "store" {
+					edits = append(edits, w.kind+" in "+fname(w.fn)+" at "+c.pos(w.pos))
+				}
+			}
+			for _, w := range unk {
+				edits = append(edits, w.kind+" in "+fname(w.fn)+" at "+c.pos(w.pos))
+			}
+			sort.Strings(edits)
+			r.check(len(edits) == 0, "T0", where, "literal is the whole table", pos,
+				"no initialiser edits the table after the literal is assigned: its entries are the literal's entries",
+				fmt.Sprintf("an initialiser edits the table after the literal (%v): pairs are added or changed that the completeness and symmetry checks of the literal do not see (a symbol added without its gap scores panics in Get)", edits))
+		}
 		m := map[[2]int]float64{}
 		alpha := map[int]bool{}
 		bad := ""
